@@ -37,6 +37,7 @@ func run(c *vf.Ctx) {
 	histories(c)
 	editedPacket(c)
 	editedName(c)
+	rewrittenDecodeResults(c)
 }
 
 // ------------------------------------------------------------------ lattices
@@ -423,6 +424,54 @@ func checkPacket(c *vf.Ctx, t *tpkt) {
 				})
 			}
 		}
+		// ... the sections of a decoded packet are slices of their own: a record appended to one section (a responder
+		// adds its answer to the decoded query) leaves the other sections as decoded; and what a caller does to a
+		// decoded packet (names and scopes rewritten) does not reach a packet decoded from the same bytes afterwards
+		{
+			var d1, d2 nbtns.NBTNSPacket
+			var e1, e2 error
+			extra := nbtns.NBTNSResourceRecord{Name: &nbtns.NetBIOSName{Name: "APPENDED"}, Type: 0x20, Class: 1, TTL: 1, RDLength: 6, RData: []byte{0, 0, 9, 9, 9, 9}}
+			if p, _, _ := vf.Try(func() {
+				if _, e1 = d1.Unmarshal(append([]byte{}, wire...)); e1 != nil {
+					return
+				}
+				d1.Answers = append(d1.Answers, extra)
+				d1.Authority = append(d1.Authority, extra)
+			}); !p && e1 == nil {
+				okA, diffA := cmpLibSection(2, t.sec[2], &nbtns.NBTNSPacket{Authority: d1.Authority[:len(d1.Authority)-1]})
+				okB, diffB := cmpLibSection(3, t.sec[3], &d1)
+				okQ, diffQ := cmpLibSection(0, t.sec[0], &d1)
+				c.Check("C10/packet/history/appending-to-a-decoded-section-leaves-the-other-sections-as-decoded", okA && okB && okQ, func() string {
+					return fmt.Sprintf("Unmarshal(Marshal(p)); append(Answers, rr); append(Authority, rr): authority %s; additional %s; questions %s; p = %s", diffA, diffB, diffQ, t)
+				})
+				vf.Try(func() {
+					for i := range d1.Questions {
+						if d1.Questions[i].Name != nil {
+							d1.Questions[i].Name.Name, d1.Questions[i].Name.ScopeID = "REWRITTEN", "rw"
+						}
+					}
+					for _, sec := range [][]nbtns.NBTNSResourceRecord{d1.Answers, d1.Authority, d1.Additional} {
+						for i := range sec {
+							if sec[i].Name != nil {
+								sec[i].Name.Name, sec[i].Name.ScopeID = "REWRITTEN", "rw"
+							}
+							for k := range sec[i].RData {
+								sec[i].RData[k] = 0xEE
+							}
+						}
+					}
+					_, e2 = d2.Unmarshal(append([]byte{}, wire...))
+				})
+				if e2 == nil {
+					for s := 0; s < 4; s++ {
+						ok, diff := cmpLibSection(s, t.sec[s], &d2)
+						c.Check("C10/packet/history/decode-after-the-caller-rewrote-an-earlier-decoded-packet/"+secName[s], ok, func() string {
+							return fmt.Sprintf("Unmarshal(w) -> d1; every name, scope and RDATA byte of d1 rewritten; Unmarshal(w) -> d2: %s; p = %s", diff, t)
+						})
+					}
+				}
+			}
+		}
 		// ... and a receiver that has decoded another packet before (one packet structure per socket loop)
 		// reads this one like a fresh receiver does
 		{
@@ -799,5 +848,57 @@ func editedName(c *vf.Ctx) {
 				return fmt.Sprintf("NetBIOSName{%q,%q}.FirstLevelEncode(); fields assigned {%q,%q}; FirstLevelEncode() = %q (%v); a fresh value gives %q (%v) (panic=%v %s %s)", a.n, a.sc, b.n, b.sc, got, gerr, want, werr, pn, msg, where)
 			})
 		}
+	}
+}
+
+// rewrittenDecodeResults: what FirstLevelDecode hands out belongs to the caller - rewriting it does not change what
+// a later decode of the same text returns. Over well-known names (the wildcard of a node status query among them),
+// with and without scope; and the same through Unmarshal of a hand-built node status query.
+func rewrittenDecodeResults(c *vf.Ctx) {
+	encs := []string{"CKAAAAAAAAAAAAAAAAAAAAAAAAAAAAAA", "CKAAAAAAAAAAAAAAAAAAAAAAAAAAAAAA.sc", "EGFCEFEECACACACACACACACACACACACA", "EGFCEFEECACACACACACACACACACACACA.corp.example",
+		"CACACACACACACACACACACACACACACACA", "AAAAAAAAAAAAAAAAAAAAAAAAAAAAAAAA", "PPPPPPPPPPPPPPPPPPPPPPPPPPPPPPPP"}
+	for _, e := range encs {
+		var n1, n2 *nbtns.NetBIOSName
+		var e1, e2 error
+		var before string
+		pn, msg, where := vf.Try(func() {
+			n1, e1 = nbtns.FirstLevelDecode(e)
+			if e1 != nil || n1 == nil {
+				return
+			}
+			before = n1.Name + "|" + n1.ScopeID
+			n1.Name, n1.ScopeID = "REWRITTEN", "rw"
+			n2, e2 = nbtns.FirstLevelDecode(e)
+		})
+		c.Evals(1)
+		c.Case([]byte("name.rewrite"), []byte(e))
+		if e1 != nil {
+			continue
+		}
+		c.Check("C10/name/history/decode-after-the-caller-rewrote-an-earlier-result", !pn && e2 == nil && n2 != nil && n2.Name+"|"+n2.ScopeID == before, func() string {
+			return fmt.Sprintf("FirstLevelDecode(%q) -> n1 (%q); n1 rewritten by the caller; FirstLevelDecode(%q) -> %s (%v) (panic=%v %s %s)", e, before, e, showName(n2), e2, pn, msg, where)
+		})
+	}
+	// node status query for the wildcard name, as every scanner sends it
+	wire := append(append([]byte{0x12, 0x34, 0x00, 0x00, 0x00, 0x01, 0, 0, 0, 0, 0, 0, 0x20}, []byte("CKAAAAAAAAAAAAAAAAAAAAAAAAAAAAAA")...), 0x00, 0x00, 0x21, 0x00, 0x01)
+	var d1, d2 nbtns.NBTNSPacket
+	var e1, e2 error
+	var before string
+	pn, msg, where := vf.Try(func() {
+		if _, e1 = d1.Unmarshal(append([]byte{}, wire...)); e1 != nil || len(d1.Questions) != 1 || d1.Questions[0].Name == nil {
+			return
+		}
+		before = d1.Questions[0].Name.Name + "|" + d1.Questions[0].Name.ScopeID
+		d1.Questions[0].Name.Name, d1.Questions[0].Name.ScopeID = "REWRITTEN", "rw"
+		_, e2 = d2.Unmarshal(append([]byte{}, wire...))
+	})
+	if e1 == nil && before != "" {
+		got := "<no question>"
+		if len(d2.Questions) == 1 && d2.Questions[0].Name != nil {
+			got = d2.Questions[0].Name.Name + "|" + d2.Questions[0].Name.ScopeID
+		}
+		c.Check("C10/packet/history/node-status-query-decoded-after-the-caller-rewrote-an-earlier-decoded-one", !pn && e2 == nil && got == before, func() string {
+			return fmt.Sprintf("Unmarshal(node status query for '*') -> %q; the caller rewrites the decoded name; Unmarshal of the same bytes -> %q (%v) (panic=%v %s %s)", before, got, e2, pn, msg, where)
+		})
 	}
 }
